@@ -11,7 +11,7 @@
 From Coq Require Import List Arith NArith Bool String.
 Import ListNotations.
 Require Import PV.Comb.PState PV.Comb.Utf8 PV.Iter.Queue PV.Peg.Ast PV.Peg.Spec.
-Require Import PV.gen.JsonGrammar PV.Json.Rfc8259 PV.Json.Recogniser PV.Json.RfcStructure PV.Json.RfcUtf8 PV.Json.Top.
+Require Import PV.gen.JsonGrammar PV.Json.Rfc8259 PV.Json.Recogniser PV.Json.RfcStructure PV.Json.RfcUtf8 PV.Json.RfcAbnf PV.Json.Top.
 
 Definition C18_statement : Prop :=
   forall (uprop : name -> option (N -> bool)) (w : list byte), valid_utf8 w ->
@@ -39,6 +39,11 @@ Definition C18_utf8_statement : Prop := forall w, json_text w -> valid_utf8 w.
 Theorem C18_json_text_is_utf8 : C18_utf8_statement.
 Proof. exact json_text_valid_utf8. Qed.
 
+(* RFC 8259's ABNF transcribed literally (ws attached to the six structural characters; PV.Json.RfcAbnf) generates the same texts *)
+Definition C18_abnf_statement : Prop := forall w, abnf_json_text w <-> json_text w.
+Theorem C18_rfc_abnf_equivalent : C18_abnf_statement.
+Proof. exact abnf_equiv. Qed.
+
 (* ---- non-vacuity ---- *)
 (*  {"a": [1, -0.5e+3, "é\n", true, null], "":{}}  surrounded by blanks *)
 Definition C18_example : list byte :=
@@ -64,3 +69,4 @@ Proof. vm_compute. reflexivity. Qed.
 Print Assumptions C18_json_is_rfc8259.
 Print Assumptions C18_recogniser_correct.
 Print Assumptions C18_json_text_is_utf8.
+Print Assumptions C18_rfc_abnf_equivalent.
